@@ -2,6 +2,7 @@ package main
 
 import (
 	"fmt"
+	"strings"
 	"time"
 
 	"github.com/akrylysov/pogreb/zzverif/explore"
@@ -14,13 +15,27 @@ import (
 
 func op(kind explore.OpKind, key string) explore.Op { return explore.Op{Kind: kind, Key: key} }
 
+// compactRefused: a Compact that returned an error while another maintenance task (Compact, Backup - or the
+// background worker's) overlapped it was refused as "busy", which the API documents; the wording is not compared.
+func compactRefused(r *explore.ConcRun, e explore.Event) bool {
+	if strings.Contains(e.Err, "busy") {
+		return true
+	}
+	for _, o := range r.Events {
+		if (o.Op.Kind == explore.Compact || o.Op.Kind == explore.Backup) && (o.Thread != e.Thread || o.Idx != e.Idx) && o.Call < e.Ret && e.Call < o.Ret {
+			return true
+		}
+	}
+	return false
+}
+
 func linCheck(base *explore.Base) func(r *explore.ConcRun) (string, string) {
 	return func(r *explore.ConcRun) (string, string) {
 		for _, e := range r.Events {
 			if e.Err != "" && e.Op.Kind != explore.Compact {
 				return "op-error", fmt.Sprintf("%s in thread %d returned error: %s", e.Op, e.Thread, e.Err)
 			}
-			if e.Err != "" && e.Op.Kind == explore.Compact && e.Err != "database is busy" {
+			if e.Err != "" && e.Op.Kind == explore.Compact && !compactRefused(r, e) {
 				return "op-error", fmt.Sprintf("Compact returned error: %s", e.Err)
 			}
 		}
